@@ -14,7 +14,7 @@ Idx(sz, ms) ==
    as |-> [image |-> NoView,
            index |-> [wf |-> TRUE, blobs |-> {}, mans |-> ms, subject |-> None, subjectType |-> None]]]
 MCCat ==
-  [c \in {"b0", "b1", "b2", "img", "idx", "idy", "sub", "bad", "idz", "imx", "idw"} |->
+  [c \in {"b0", "b1", "b2", "img", "idx", "idy", "sub", "bad", "idz", "imx", "idw", "sub2"} |->
      CASE c = "b0" -> Blob(<<>>)
        [] c = "b1" -> Blob(<<1>>)
        [] c = "b2" -> Blob(<<1, 2>>)
@@ -27,10 +27,12 @@ MCCat ==
        [] c = "idz" -> Idx(45, {<<"bad", "image">>, <<"img", "image">>})
        \* the same bytes as a blob and as a manifest: imx has the bytes of sub as a layer, idw names imx and then sub
        [] c = "imx" -> Img(46, {"b1", "sub"}, None)
-       [] c = "idw" -> Idx(47, {<<"imx", "image">>, <<"sub", "image">>})]
+       [] c = "idw" -> Idx(47, {<<"imx", "image">>, <<"sub", "image">>})
+       \* an image whose layer b2 is named by nothing else, with a subject (img) that can be stored beside it
+       [] c = "sub2" -> Img(48, {"b1", "b2"}, "img")]
 MCPos == [r |-> [x \in Repos |-> IF x = "r1" THEN 2 ELSE 4],
           t |-> [x \in Tags |-> IF x = "t1" THEN 2 ELSE 4],
           c |-> [x \in Cids |-> CASE x = "b0" -> 2 [] x = "b1" -> 4 [] x = "b2" -> 6 [] x = "img" -> 8
-                                  [] x = "idx" -> 10 [] x = "sub" -> 12 [] x = "bad" -> 14 [] x = "idy" -> 16 [] x = "idz" -> 18 [] x = "imx" -> 20 [] x = "idw" -> 22]]
+                                  [] x = "idx" -> 10 [] x = "sub" -> 12 [] x = "bad" -> 14 [] x = "idy" -> 16 [] x = "idz" -> 18 [] x = "imx" -> 20 [] x = "idw" -> 22 [] x = "sub2" -> 24]]
 BufBound == \A r \in Repos : \A u \in DOMAIN ups[r] : Len(ups[r][u].buf) <= 2
 ========================================================================
